@@ -220,6 +220,24 @@ func init() {
 		"vfUF64": func(fr *frame, a []value) value {
 			return fr.m().uf(strArg(a[0]), BV(64), bvOf(a[1]))
 		},
+		"vfStub": func(fr *frame, a []value) value {
+			m := fr.m()
+			if m.stubs == nil {
+				m.stubs = map[string]*int{}
+			}
+			m.stubs[strArg(a[0])] = new(int)
+			return nil
+		},
+		"vfUnstub": func(fr *frame, a []value) value {
+			delete(fr.m().stubs, strArg(a[0]))
+			return nil
+		},
+		"vfStubCalls": func(fr *frame, a []value) value {
+			if c, ok := fr.m().stubs[strArg(a[0])]; ok {
+				return mkBV(64, uint64(*c))
+			}
+			return mkBV(64, 0)
+		},
 		"vfFail": func(fr *frame, a []value) value {
 			fr.m().obligation(strArg(a[0]), falseT)
 			return nil
